@@ -21,10 +21,11 @@ pub fn split_suffix(s: &[u8]) -> (&[u8], &[u8]) {
     s.split_at(s.len() - n)
 }
 
-/// The short form of the alphabetic part of a definition: its leading
-/// upper-case run.
+/// The short form of the alphabetic part of a definition: everything before
+/// its first lower-case letter (upper-case letters and, for names such as
+/// `P6V` or `CH1A`, digits embedded among them).
 pub fn short_of(alpha: &[u8]) -> &[u8] {
-    let n = alpha.iter().take_while(|c| c.is_ascii_uppercase()).count();
+    let n = alpha.iter().take_while(|c| c.is_ascii_uppercase() || c.is_ascii_digit() || **c == b'_').count();
     &alpha[..n]
 }
 
@@ -85,5 +86,9 @@ mod tests {
         assert_eq!(matches(b"L125", b"L1"), Verdict::NoMatch);
         assert_eq!(matches(b"ASCii2", b"asc2"), Verdict::Match);
         assert_eq!(matches(b"ASCii", b"asc0"), Verdict::NoMatch);
+        assert_eq!(matches(b"P6V", b"p6v"), Verdict::Match);
+        assert_eq!(matches(b"P6V", b"p6"), Verdict::NoMatch);
+        assert_eq!(matches(b"P25Volt2", b"p25v2"), Verdict::Match);
+        assert_eq!(response_form(b"P25Volt2"), b"P25V2".to_vec());
     }
 }
